@@ -17,6 +17,7 @@ import Jawk.Lemmas.Fixpoint
 import Jawk.Lemmas.RoundTrip
 import Jawk.Lemmas.F64RoundTrip
 import Jawk.Lemmas.ParseSer
+import Jawk.Props.Tables
 namespace Jawk.C02
 open Jawk RT
 
